@@ -1,7 +1,7 @@
-(* C02 — write-through persistence: the byte image always reopens to the same state.  Statements are printed by Check below and compared with C02.expected.  PARTIAL: proved are the write-through of the FAT, of the directory (insert / remove / metadata updates / new directory sectors) and of the MiniFAT cells (every cached cell or entry equals its bytes on disk after every mutation), that the on-disk FAT and directory read back as open does return the cache (the directory followed by the blank slots of its last sector), the entry / header codec round trips in both modes, and that strict acceptance gives the same state as permissive.  Also proved (proofs/ReopenProofs.v): the REOPEN ROUND TRIP - for every state that is Coherent (header bytes = header computed from the cache, FAT / directory / MiniFAT cache = disk, tails FREE, tables valid; no DIFAT sectors, i.e. at most 109 FAT sectors) open in BOTH modes on the concatenated image succeeds and returns exactly the cached tables (directory followed by the blank slots of its last sector, free lists rebuilt in index order); Coherent holds for the fresh file of either version and, by a sound boolean checker, for reachable example states (storages, mini and regular streams, removals, second FAT sector, second directory sector, extended MiniFAT); the header field writes of allocation keep the header coherent.  Also proved (proofs/PersistProofs.v): PERSISTENCE OVER HISTORIES of the namespace - a stronger invariant PInv (Coherent + directory and MiniFAT chains disjoint + every entry well-formed and black + the table represents a tree) holds of the fresh file of either version, is preserved by create_storage, create_new_stream, remove_storage, remove_stream (of empty streams), the four metadata setters (unchanged state on their refusals), including the growth of the directory chain by a sector with a new FAT sector, and implies the round trip; hence for EVERY history of those calls and the queries (up to 6000 calls, each Ok or without effect) the bytes alone reopen in both modes to the cached state, at every prefix.  NOT proved: preservation by operations that move stream data (write, set_len, removal of non-empty streams, overwrite), and the DIFAT-sector regime; both are checked at every operation boundary of generated histories: the implementation's bytes, taken without flush, are reopened in both modes by the crate and by the model and all dumps compared. *)
+(* C02 — write-through persistence: the byte image always reopens to the same state.  Statements are printed by Check below and compared with C02.expected.  PARTIAL: proved are the write-through of the FAT, of the directory (insert / remove / metadata updates / new directory sectors) and of the MiniFAT cells (every cached cell or entry equals its bytes on disk after every mutation), that the on-disk FAT and directory read back as open does return the cache (the directory followed by the blank slots of its last sector), the entry / header codec round trips in both modes, and that strict acceptance gives the same state as permissive.  Also proved (proofs/ReopenProofs.v): the REOPEN ROUND TRIP - for every state that is Coherent (header bytes = header computed from the cache, FAT / directory / MiniFAT cache = disk, tails FREE, tables valid; no DIFAT sectors, i.e. at most 109 FAT sectors) open in BOTH modes on the concatenated image succeeds and returns exactly the cached tables (directory followed by the blank slots of its last sector, free lists rebuilt in index order); Coherent holds for the fresh file of either version and, by a sound boolean checker, for reachable example states (storages, mini and regular streams, removals, second FAT sector, second directory sector, extended MiniFAT); the header field writes of allocation keep the header coherent.  Also proved (proofs/PersistProofs.v): PERSISTENCE OVER HISTORIES of the namespace - a stronger invariant PInv (Coherent + directory and MiniFAT chains disjoint + every entry well-formed and black + the table represents a tree) holds of the fresh file of either version, is preserved by create_storage, create_new_stream, remove_storage, remove_stream (of empty streams), the four metadata setters (unchanged state on their refusals), including the growth of the directory chain by a sector with a new FAT sector, and implies the round trip; hence for EVERY history of those calls and the queries (up to 6000 calls, each Ok or without effect) the bytes alone reopen in both modes to the cached state, at every prefix.  Also proved (proofs/DataPersist.v): on files WITH stream data, write-back and resize in the cases that allocate nothing, growth of a large stream into reused or appended sectors, and the metadata calls keep cache = disk (Coherent) - hence after flush / drop of a handle the bytes alone reopen in both modes and hold what the handle showed, over histories of such operations.  NOT proved: small-stream allocation, first writes, the migrations and removals on files with data (the store theorems exist, their Coherent counterpart does not), and the DIFAT-sector regime; these are checked at every operation boundary of generated histories: the implementation's bytes, taken without flush, are reopened in both modes by the crate and by the model and all dumps compared. *)
 From Cfb.model Require Import Base Names DirEnt State Alloc Dir Mini Store Handle Open Cfb.
 From Cfb.gen Require Import Consts.
-From Cfb.proofs Require Import CoherenceProofs CodecProofs StrictProofs DirCoherence ReopenProofs ReadonlyTotal PersistProofs HistoryRefine Progress.
+From Cfb.proofs Require Import CoherenceProofs CodecProofs StrictProofs DirCoherence ReopenProofs ReadonlyTotal PersistProofs HistoryRefine Progress HandleFrame DataPersist.
 Set Printing Width 110.
 
 (* every FAT cell update is on disk when the call returns *)
@@ -195,3 +195,63 @@ Theorem C02_persistence_at_every_prefix_unconditionally : ltac:(let t := type of
 Proof. exact persist_every_prefix_total. Qed.
 Check C02_persistence_at_every_prefix_unconditionally.
 Print Assumptions C02_persistence_at_every_prefix_unconditionally.
+
+(* files WITH stream data: a write-back in the non-allocating cases (small or large stream) keeps Coherent and the disjointness of all chains, and every other stream's content *)
+Theorem C02_data_writes_keep_cache_equal_disk : ltac:(let t := type of write_data_cohdata in exact t).
+Proof. exact write_data_cohdata. Qed.
+Check C02_data_writes_keep_cache_equal_disk.
+Print Assumptions C02_data_writes_keep_cache_equal_disk.
+
+(* same for resize inside the sectors the stream has *)
+Theorem C02_data_resizes_keep_cache_equal_disk : ltac:(let t := type of resize_cohdata in exact t).
+Proof. exact resize_cohdata. Qed.
+Check C02_data_resizes_keep_cache_equal_disk.
+Print Assumptions C02_data_resizes_keep_cache_equal_disk.
+
+(* after such a write the bytes alone reopen in both modes to the cached state, the reopened file holds the spliced content, every other stream its old content *)
+Theorem C02_bytes_reopen_after_a_data_write : ltac:(let t := type of persist_after_covered_write in exact t).
+Proof. exact persist_after_covered_write. Qed.
+Check C02_bytes_reopen_after_a_data_write.
+Print Assumptions C02_bytes_reopen_after_a_data_write.
+
+(* THROUGH THE HANDLE: after flush returns, what the handle showed is what the reopened file holds *)
+Theorem C02_bytes_reopen_after_flush : ltac:(let t := type of flush_persists in exact t).
+Proof. exact flush_persists. Qed.
+Check C02_bytes_reopen_after_flush.
+Print Assumptions C02_bytes_reopen_after_flush.
+
+(* same when the handle is dropped with buffered data *)
+Theorem C02_bytes_reopen_after_drop : ltac:(let t := type of drop_persists in exact t).
+Proof. exact drop_persists. Qed.
+Check C02_bytes_reopen_after_drop.
+Print Assumptions C02_bytes_reopen_after_drop.
+
+(* set_state / set_clsid / set_created / set_modified keep the invariant and all contents on files that hold stream data, whatever they return *)
+Theorem C02_metadata_calls_on_files_with_data : ltac:(let t := type of meta_step_cohdata in exact t).
+Proof. exact meta_step_cohdata. Qed.
+Check C02_metadata_calls_on_files_with_data.
+Print Assumptions C02_metadata_calls_on_files_with_data.
+
+(* histories of covered handle operations, open_stream, metadata calls and queries on a file with data: the bytes reopen to the cached state at every prefix *)
+Theorem C02_persistence_over_histories_with_data : ltac:(let t := type of persist_data_history in exact t).
+Proof. exact persist_data_history. Qed.
+Check C02_persistence_over_histories_with_data.
+Print Assumptions C02_persistence_over_histories_with_data.
+
+(* a large stream growing into sectors from the free stack: FAT cells written through, round trip, content V ++ zeros in the reopened file *)
+Theorem C02_growth_into_reused_sectors_persists : ltac:(let t := type of resize_big_reuse_coherent in exact t).
+Proof. exact resize_big_reuse_coherent. Qed.
+Check C02_growth_into_reused_sectors_persists.
+Print Assumptions C02_growth_into_reused_sectors_persists.
+
+(* growing at the end of the file, incl. a new FAT sector with its header fields (below 109 FAT sectors) *)
+Theorem C02_growth_by_appending_persists : ltac:(let t := type of resize_big_append_coherent in exact t).
+Proof. exact resize_big_append_coherent. Qed.
+Check C02_growth_by_appending_persists.
+Print Assumptions C02_growth_by_appending_persists.
+
+(* non-vacuity: a small and a large stream built by running the model; an 8-step history with writes, a flush, a metadata call, a query and a drop *)
+Theorem C02_data_persistence_example : ltac:(let t := type of DataPersist.Example.hist_persists in exact t).
+Proof. exact DataPersist.Example.hist_persists. Qed.
+Check C02_data_persistence_example.
+Print Assumptions C02_data_persistence_example.
